@@ -9,9 +9,13 @@
      -----------------------------  -----------------------------------------------------------------------------------
      pa_perform                     _perform_imputation 75-130: the early return (81), the dispatch on
                                     `group_by_features` (85), the six plain methods
-     pa_early_return                81 `pc.count(pc.is_null(source_column)).as_py() == 0`.  pc.is_null yields a Boolean
-                                    array WITHOUT nulls, pc.count counts the non-null entries: the test compares the
-                                    LENGTH of the column with 0 (so the early return only fires on an empty column)
+     pa_early_return                81 `source_column.null_count == 0` (since /repo 505d3c3): the column holds no
+                                    missing value -> it is returned as it is (type included)
+     pa_early_return_old,           the line BEFORE 505d3c3, `pc.count(pc.is_null(source_column)).as_py() == 0`: pc.is_null
+     pa_perform_old                 yields a Boolean array WITHOUT nulls and pc.count counts the non-null entries, so the
+                                    test compared the LENGTH of the column with 0.  NOT the code any more: kept only as the
+                                    regression witness of the repaired finding C19-pyarrow-early-return-never-fires
+                                    (C19fw_pa_early_return_old_only_on_empty, C19fw_pa_string_stat_old_refuted)
      pa_plain                       91-130
      pa_mode                        103-120, 209-223, 265-279: value_counts of the non-null cells, pc.max of the counts,
                                     Python loop collecting the indices whose count is maximal, first index
@@ -30,7 +34,8 @@
      pa_transpose / rows_of         conversion between row keys (spec) and group-by columns (table)
 
    ELEMENT-WISE kernels modelled by their definition (no contract variable): pc.is_null, pc.is_valid,
-   pc.equal + pc.fill_null(.., False) on a key column, pc.and_, `column[i].as_py()`, `len`.
+   pc.equal + pc.fill_null(.., False) on a key column, pc.and_, `column[i].as_py()`, `len`, `ChunkedArray.null_count`
+   (the number of null cells: `null_count`).
 
    KERNEL CONTRACTS (record pa_contracts; exact arithmetic: a double is the rational it denotes, rounding is NOT modelled;
    int64 -> double is exact on the modelled domain):
@@ -229,15 +234,23 @@ Definition pa_grouped (m : imethod) (ck : pykind) (gcols : list (list (option Z)
          end
   end.
 
-(* pc.count(pc.is_null(col)).as_py() == 0 *)
-Definition pa_early_return (c : col) : bool := Nat.eqb (List.length (map (@is_none Q) c)) 0.
+(* source_column.null_count == 0 *)
+Definition null_count (c : col) : nat := List.length (filter (@is_none Q) c).
+Definition pa_early_return (c : col) : bool := Nat.eqb (null_count c) 0.
 
-Definition pa_perform (m : imethod) (ck : pykind) (group_by : option (list (list (option Z)))) (a : arr) : option arr :=
-  if pa_early_return (a_cells a) then Some a
+(* lines 81-130 with the test of line 81 as a parameter (the rest of the text is the same before and after 505d3c3) *)
+Definition pa_perform_with (early_return : col -> bool) (m : imethod) (ck : pykind)
+  (group_by : option (list (list (option Z)))) (a : arr) : option arr :=
+  if early_return (a_cells a) then Some a
   else match group_by with
        | Some (g :: gs) => pa_grouped m ck (g :: gs) a              (* `if group_by_features:` a non-empty list *)
        | _ => pa_plain m ck a
        end.
+Definition pa_perform := pa_perform_with pa_early_return.
+
+(* BEFORE 505d3c3 (regression witness only, see the header): pc.count(pc.is_null(col)).as_py() == 0 *)
+Definition pa_early_return_old (c : col) : bool := Nat.eqb (List.length (map (@is_none Q) c)) 0.
+Definition pa_perform_old := pa_perform_with pa_early_return_old.
 End Glue.
 
 (* ---- row keys <-> group-by columns ---- *)
@@ -270,6 +283,12 @@ Definition ref_kernels : pa_kernels := {|
   pa_array := fun l => mk_arr TFloat l
 |}.
 
-(* known finding C19-pyarrow-early-return-never-fires: the domain in which the model (and the code) deviates *)
+(* The domain in which the model (and the code) does not return the value of the (untyped) spec: mean / median of a STRING
+   column that HOLDS A NULL -- pc.mean / pc.quantile have no kernel for strings, the call raises.  (Until 505d3c3 the
+   domain was every string column, null or not: finding C19-pyarrow-early-return-never-fires, repaired.)  What is left is
+   the boundary of the spec rather than a defect of this file: Spec/Builtins.v is untyped (a string is an order-preserving
+   integer), the "mean of the strings" it denotes is computed by no framework.  The part of it in which the real
+   frameworks differ from EACH OTHER is the open finding C19-string-stat-with-null-pydict-computes. *)
 Definition is_stat (m : imethod) : bool := match m with IMean | IMedian => true | _ => false end.
-Definition kf_pa_string_stat (m : imethod) (a : arr) : bool := negb (numeric (a_ty a)) && is_stat m.
+Definition string_stat (m : imethod) (t : dtype) : bool := negb (numeric t) && is_stat m.
+Definition kf_pa_string_stat (m : imethod) (a : arr) : bool := string_stat m (a_ty a) && has_null (a_cells a).
